@@ -214,10 +214,11 @@ class FuncV:
 
 class SortedV:
     """The result of sorted(base, key=..., reverse=...): a permutation of `base` (stable)."""
-    __slots__ = ("base", "key", "reverse", "node")
+    __slots__ = ("base", "key", "reverse", "node", "env")
 
-    def __init__(self, base, key, reverse, node):
+    def __init__(self, base, key, reverse, node, env=None):
         self.base, self.key, self.reverse, self.node = base, key, reverse, node
+        self.env = env or {}   # the locals at the call (the key may be a closure over them)
 
     def __eq__(self, o):
         return isinstance(o, SortedV) and o.node is self.node
@@ -406,6 +407,7 @@ class State:
         self.memo = {}
         self.trace = []
         self.neq = {}  # symbol text -> set of excluded Const values (light disequality facts)
+        self.vknown = {}  # id(unknown boolean value) -> (value, truth): a value passed around keeps the truth a branch gave it
         self.facts = {}  # canonical predicate text -> (truth, frozenset of attribute names it depends on)
 
     def copy(self):
@@ -416,6 +418,7 @@ class State:
         s.memo = dict(self.memo)
         s.trace = list(self.trace)
         s.neq = {k: set(v) for k, v in self.neq.items()}
+        s.vknown = dict(self.vknown)
         s.facts = dict(self.facts)
         return s
 
@@ -2160,7 +2163,7 @@ class Interp:
             revv = self.eval(revn, st, fr) if revn is not None else FALSE
             if isinstance(base, CollV):
                 return CollV(base.base, base.preds, base.typ, "list", cpreds=base.cpreds)  # element facts survive a permutation
-            return SortedV(base, keyv, revv, e)
+            return SortedV(base, keyv, revv, e, dict(st.env))
         if fname in ("list", "tuple", "sorted", "set") and len(e.args) >= 1:
             inner = self._eval_iterable(e.args[0], st, fr)
             if isinstance(inner, CollV):
@@ -2355,6 +2358,8 @@ class Interp:
             return res
         v = self.eval(e, st, fr)
         t = self._truth_of_value(v)
+        if t is None and isinstance(v, Unk) and id(v) in st.vknown and st.vknown[id(v)][0] is v:
+            return st.vknown[id(v)][1]
         if t is None and isinstance(e, (ast.Call, ast.Name, ast.Attribute, ast.Compare)):
             k = self.canon(e, st, fr)
             if k in st.facts:
@@ -2787,6 +2792,8 @@ class Interp:
             return True
         # bare name / attribute / call used as a condition
         v = self.eval(test, st, fr)
+        if isinstance(v, Unk):
+            st.vknown[id(v)] = (v, truth)
         if isinstance(v, Unk) and v.pred is not None:
             # the boolean was computed elsewhere (another statement, a helper): assuming it means assuming that comparison,
             # in the environment where it was written -- the objects it speaks about are shared through the heap
